@@ -18,6 +18,7 @@ mod c20;
 mod codes;
 mod common;
 mod explore;
+mod gen;
 mod monitor;
 mod scen;
 mod sim;
@@ -44,6 +45,15 @@ fn main() {
         std::panic::set_hook(Box::new(|_| {}));
     }
     match args[1].as_str() {
+        "gen" => {
+            let t: usize = args.get(2).and_then(|x| x.parse().ok()).unwrap_or(2);
+            let t0 = std::time::Instant::now();
+            let g = gen::generated(t);
+            println!("{}-wise covering set: {} scenarios in {:.2}s over {:?}", t, g.len(), t0.elapsed().as_secs_f64(), gen::dims_description());
+            for s in g.iter().take(8) {
+                println!("  {}", s.name);
+            }
+        }
         "selftest" => {
             std::panic::set_hook(Box::new(|i| eprintln!("{}", i)));
             std::process::exit(selftest::run());
